@@ -248,12 +248,15 @@ def support_box(model, dims, alpha):
 # observing one contour
 
 
-def observe_contour(vc, case, want_pref=True, want_resort=True):
+def observe_contour(vc, case, want_pref=True, want_resort=True, model=None):
     """Run HighestDensityContour on case (plain dict) and return what was observed.
 
     cumsum_biggest_until is a staticmethod: it is wrapped from here (no repo change) to
     capture the array the code selected from, the limit, the mask and the last value."""
-    model = build_model(vc, case["model"])
+    if case.get("history") and model is None:
+        return observe_history(vc, case, want_pref, want_resort)
+    if model is None:
+        model = build_model(vc, case["model"])
     alpha = float(case["alpha"])
     limits = None if case["limits"] is None else [tuple(x) for x in case["limits"]]
     deltas = case["deltas"]
@@ -524,6 +527,9 @@ def case_key(case):
              f"deltas={case['deltas']} params={_params_digest(case['model'])}")
         if any(d.get("closure") for d in case["model"]):
             k += " dep=closures"
+        if case.get("history"):
+            h = case["history"]
+            k += f" same-model-object after contour(alpha={h['alpha']}) and in-place change {h['mod']}".replace("'", "")
         if case.get("np_int"):
             k += " ints=np.int64"
         if case.get("prelude"):
@@ -667,7 +673,8 @@ def observe_sorter(vc, case):
 
 
 def record_c02(rid, case, obs):
-    rec = dict(id=rid, kind="hdc", exc=obs["exc"], warned=bool(obs["warned"]))
+    rec = dict(id=rid, kind="hdc", exc=obs["exc"], warned=bool(obs["warned"]),
+               freshsame=bool(obs.get("fresh_same", True)))
     if obs["exc"]:
         return rec
     cap = obs["cap"]
@@ -703,7 +710,7 @@ def record_c02(rid, case, obs):
 
 
 def record_c15(rid, case, obs):
-    rec = dict(id=rid, kind="hdc", exc=obs["exc"])
+    rec = dict(id=rid, kind="hdc", exc=obs["exc"], freshsame=bool(obs.get("fresh_same", True)))
     if obs["exc"]:
         return rec
     cap = obs["cap"]
@@ -1006,4 +1013,131 @@ def tie_cut_cases(vc, rng, n_bases, per_base=6):
             cse["alpha"] = format(Decimal(int(aq)) / Decimal(S18), "f")
             cse["cfg"] = dict(base["cfg"], tiecut="cut inside a pair of equal probability")
             out.append(cse)
+    return out
+
+
+# ---------------------------------------------------------------------------------------
+# model histories: contour -> the model is changed IN PLACE (not through model.fit) -> contour on
+# the same grid.  The second contour belongs to the model as it is then.
+
+
+def apply_modification(vc, model, dims, mod):
+    """change the model object in place; mod is plain data (replayable)"""
+    kind = mod["kind"]
+    i = mod["dim"]
+    dist = model.distributions[i]
+    if kind == "set_attribute":            # e.g. model.distributions[0].alpha = 3.1
+        setattr(dist, mod["name"], mod["value"])
+    elif kind == "set_dep_parameter":      # DependenceFunction.parameters[name] = value
+        dist.conditional_parameters[mod["param"]].parameters[mod["name"]] = mod["value"]
+    elif kind == "fit_distribution":       # model.distributions[i].fit(sample)
+        src = family_class(vc, mod["sample_family"])(**mod["sample_params"])
+        sample = src.draw_sample(mod["n"], random_state=np.random.default_rng(mod["seed"]))
+        dist.fit(np.asarray(sample, dtype=float))
+    elif kind == "refit_dependence":       # dependence_function.fit(x, y)
+        dep = dist.conditional_parameters[mod["param"]]
+        x = np.array(mod["x"], dtype=float)
+        dep.fit(x, np.array(mod["y"], dtype=float))
+    elif kind == "replace_distribution":   # model.distributions[i] = another distribution
+        model.distributions[i] = family_class(vc, mod["family"])(**mod["params"])
+    else:
+        raise Machinery(f"unknown modification {kind}")
+
+
+def dims_from_model(model, dims):
+    """the description of the model AS IT IS NOW (read from the objects), to build a fresh one"""
+    out = []
+    for i, d in enumerate(dims):
+        dist = model.distributions[i]
+        if d["cond"] is None:
+            fam = type(dist).__name__.replace("Distribution", "")
+            out.append(dict(family=fam, cond=None, params={k: float(v) for k, v in dist.parameters.items()}))
+        else:
+            dep = {}
+            for name, spec in d["dep"].items():
+                vals = [float(v) for v in dist.conditional_parameters[name].parameters.values()]
+                dep[name] = [spec[0]] + vals
+            out.append(dict(family=d["family"], cond=d["cond"],
+                            fixed={k: float(v) for k, v in dist.fixed_parameters.items()}, dep=dep))
+    return out
+
+
+def observe_history(vc, case, want_pref=True, want_resort=True):
+    h = case["history"]
+    plain = {k: v for k, v in case.items() if k != "history"}
+    with warnings.catch_warnings():
+        warnings.simplefilter("ignore")
+        model = build_model(vc, case["model"])
+        first = observe_contour(vc, dict(plain, alpha=h["alpha"]), want_pref=False, want_resort=False, model=model)
+        try:
+            apply_modification(vc, model, case["model"], h["mod"])
+        except Exception as e:  # noqa
+            raise Machinery(f"history case: the modification itself failed: {type(e).__name__}: {e}")
+    obs = observe_contour(vc, plain, want_pref, want_resort, model=model)
+    obs["first_exc"] = first["exc"]
+    # the same contour from a freshly constructed model with the current parameters
+    now = dims_from_model(model, case["model"])
+    fresh = observe_contour(vc, dict(plain, model=now), want_pref=False, want_resort=False)
+    same = (obs["exc"] == fresh["exc"])
+    if not obs["exc"] and not fresh["exc"]:
+        a, b = obs["cap"], fresh["cap"]
+        same = (np.array_equal(a.get("P"), b.get("P")) and obs["fm"] == fresh["fm"]
+                and obs["warned"] == fresh["warned"] and obs["sets"] == fresh["sets"]
+                and (("mask" not in a and "mask" not in b) or np.array_equal(a.get("mask"), b.get("mask"))))
+    obs["fresh_same"] = bool(same)
+    obs["model_now"] = now
+    return obs
+
+
+def history_cases(vc, rng, cfgs, n):
+    """base contours from the TLC classes; every kind of in-place change in turn; the second
+    contour with the same or another alpha on the same limits and deltas"""
+    pool = [c for c in cfgs if c["grid"] == "fit" and c["deltas"] == "list" and c["limits"] == "explicit"
+            and c["aniso"] == "1" and (c["cond1"] == "zero" or c["cond2"] != "none")]
+    pool = [pool[i] for i in rng.permutation(len(pool))]
+    kinds = ["set_attribute", "set_dep_parameter", "fit_distribution", "refit_dependence", "replace_distribution"]
+    out = []
+    for k, cfg in enumerate(pool * 3):
+        if len(out) >= n:
+            break
+        base = make_contour_case(vc, rng, cfg, (14, 50), (7, 14))
+        dims = base["model"]
+        kind = kinds[len(out) % len(kinds)]
+        marg = [i for i, d in enumerate(dims) if d["cond"] is None]
+        cond = [i for i, d in enumerate(dims) if d["cond"] is not None]
+        if kind == "set_attribute":
+            i = marg[len(out) % len(marg)]
+            name = sorted(dims[i]["params"])[0]
+            mod = dict(kind=kind, dim=i, name=name, value=round(dims[i]["params"][name] * 1.25 + 0.05, 3))
+        elif kind == "set_dep_parameter":
+            i = cond[0]
+            param = sorted(dims[i]["dep"])[0]
+            mod = dict(kind=kind, dim=i, param=param, name="a", value=round(dims[i]["dep"][param][1] * 1.3 + 0.02, 3))
+        elif kind == "fit_distribution":
+            i = marg[0]
+            fam = dims[i]["family"]
+            if fam in ("VonMises", "GeneralizedGamma", "ExponentiatedWeibull", "LogNormalNormFit"):
+                continue   # keep to families whose stand-alone fit is plain scipy MLE
+            mod = dict(kind=kind, dim=i, sample_family=fam, sample_params=marginal_params(rng, fam), n=400,
+                       seed=int(rng.integers(1 << 30)))
+        elif kind == "refit_dependence":
+            i = cond[0]
+            cands = [p for p, v in dims[i]["dep"].items() if v[0] == "lin"]
+            if not cands:
+                continue
+            param = cands[0]
+            a, b = dims[i]["dep"][param][1], dims[i]["dep"][param][2]
+            xs = [0.5, 1.0, 2.0, 3.5, 5.0, 7.0]
+            mod = dict(kind=kind, dim=i, param=param, x=xs,
+                       y=[round(a * 1.1 + 0.1 + b * 0.8 * x, 6) for x in xs])
+        else:
+            i = marg[0]
+            fam = [f for f in ("Weibull", "LogNormal", "ExponentiatedWeibull") if f != dims[i]["family"]][len(out) % 2]
+            if dims[i]["family"] in ("Normal", "VonMises"):
+                continue   # keep the support (the grid was chosen for a positive variable)
+            mod = dict(kind=kind, dim=i, family=fam, params=marginal_params(rng, fam))
+        alpha2 = base["alpha"] if len(out) % 2 == 0 else alpha_decimal(rng, ["mid", "big", "small"][len(out) % 3])
+        case = dict(base, alpha=alpha2, cfg=dict(cfg, grid="history"),
+                    history=dict(alpha=base["alpha"], mod=mod))
+        out.append(case)
     return out
